@@ -38,6 +38,15 @@ def scenarios(tier, seed):
                     sc["ops"] = [{"op": "integrate", "t": a + span * 0.55}, {"op": "integrate", "t": a - span * 0.2}, {"op": "integrate", "t": b}]
                 sc["dense"] = (len(scs) % 3 == 0)
                 scs.append(sc)
+    # a terminal event stops the run inside a full step; the continuation goes on with the requested step (the shorter steps taken to land on
+    # the event are not carried over)
+    for m in ["RK4", "Midpoint", "ABAS5O6H", "ImplicitMidpoint", "BackwardEuler"] + (["Euler", "RK5", "BABS9O7H", "GaussLegendre4", "CrankNicolson"] if thorough else []):
+        for (a, b) in ((0.0, 1.0), (1.0, -1.0), (-5.0, -3.0), (1000.0, 1002.0)):
+            for div, frac in ((8.0, 0.4), (10.0, 0.77)):
+                sc = gen.base(m, a, b, abs(b - a) / div)
+                sc["ops"] = [{"op": "integrate", "events": [{"kind": "time", "c": a + (b - a) * frac, "term": True}]}, {"op": "integrate"}]
+                sc["dense"] = (len(scs) % 2 == 0)
+                scs.append(sc)
     # a stiff-ish nonlinear problem on which the stage equations of implicit methods may fail at the requested step
     for m in ["LobattoIIIC2", "BackwardEuler", "CrankNicolson", "RadauIIA3"] + (gen.FIXIMP if thorough else []):
         for (a, b) in ((0.0, 1.0), (1.0, 0.0), (-2.0, -1.0)):
